@@ -56,7 +56,51 @@ def structural(part: str) -> dict:
         return _structural_liveness(g, s_)
     if part == "branches":
         return _structural_branches(tree)
+    if part == "records":
+        return _structural_records(tree)
     return _structural_dict_key(tree)
+
+
+RECORD_NAMES = ("record_1", "record_2", "to_register_left", "to_register_right", "df_records_left", "df_records_right")
+
+
+def _structural_records(tree) -> dict:
+    """The cached SQL text must not depend on the records: the key covers settings, dialect and flag only.  Every mention of
+    the records (arguments, what is registered, the registered frames) in compare_records is one of
+      isinstance(record_k, dict) | to_register_x = [record_k] / record_k | db_api.register_table(to_register_x, ...)
+      df_records_x = <that call> | df_records_x.templated_name = "..." | CTEPipeline([df_records_left, df_records_right])
+    anything else (reading their columns, handing them to a helper that writes SQL) is untranslatable."""
+    cr = _find(tree, None, "compare_records")
+    parent = {}
+    for n in ast.walk(cr):
+        for c in ast.iter_child_nodes(n):
+            parent[c] = n
+
+    def allowed(n):
+        p = parent.get(n)
+        if isinstance(n.ctx, ast.Store):
+            return isinstance(p, (ast.Assign, ast.AnnAssign))
+        if isinstance(p, ast.Call) and _is_name(p.func, "isinstance") and p.args and p.args[0] is n:
+            return True
+        if isinstance(p, ast.Call) and isinstance(p.func, ast.Attribute) and p.func.attr == "register_table" and p.args and p.args[0] is n:
+            return True
+        if isinstance(p, (ast.Assign, ast.AnnAssign)) and p.value is n:                        # to_register_x = record_k
+            return True
+        if isinstance(p, ast.List):
+            pp = parent.get(p)
+            if isinstance(pp, (ast.Assign, ast.AnnAssign)) and pp.value is p and len(p.elts) == 1:      # to_register_x = [record_k]
+                return True
+            if isinstance(pp, ast.Call) and _is_name(pp.func, "CTEPipeline") and pp.args and pp.args[0] is p:
+                return True
+        if isinstance(p, ast.Attribute) and p.attr == "templated_name" and isinstance(p.ctx, ast.Store):
+            return True
+        return False
+    for n in ast.walk(cr):
+        if isinstance(n, ast.Name) and n.id in RECORD_NAMES and not allowed(n):
+            raise Untranslatable(f"compare_records: line {n.lineno}: `{n.id}` is used while building the SQL "
+                                 f"({ast.unparse(parent.get(n))[:80]}); the cached SQL would depend on the records, the key does not")
+    # the records enter the pipeline only through the two registered frames
+    return {"sql_text_independent_of_records": True}
 
 
 def _structural_branches(tree) -> dict:
@@ -302,7 +346,7 @@ def params() -> tuple[dict, list[str], dict]:
     problems = []
     beh = behavioural()
     st = {}
-    for part in ("flag", "liveness", "dict_key", "branches"):
+    for part in ("flag", "liveness", "dict_key", "branches", "records"):
         try:
             st.update(structural(part))
         except Untranslatable as e:
